@@ -173,7 +173,7 @@ def inject(crate):
             raise Infra("lost anchor: host file %s is gone" % m["host"])
         path = os.path.join(vdir, m["file"])
         with open(host, "a") as f:
-            f.write('\n#[cfg(kani)]\n#[path = "%s"]\nmod %s;\n' % (path, m["mod"]))
+            f.write('\n#[cfg(kani)]\n#[path = "%s"]\npub(crate) mod %s;\n' % (path, m["mod"]))
         added.append("module %s appended to %s" % (m["mod"], m["host"]))
     for h in spec.get("body_hooks", []):
         p = os.path.join(crate, h["file"])
@@ -271,6 +271,9 @@ def classify_harness(res):
     cov_sat = len([k for k, v in covers.items() if v])
     cov_unsat = len([k for k, v in covers.items() if not v])
     status = res.get("status")
+    if status == "Success" and failed and not undecided:
+        # #[kani::should_panic] harness: Kani reports Success exactly when the expected panic is the only failure
+        failed = []
     if failed and not undecided:
         return "failed", failed, (cov_sat, cov_unsat), ""
     if failed and undecided:
@@ -293,7 +296,7 @@ def run_kani(crate, harnesses, timeout_s, jobs, extra=None, logpath=None):
     out_json = os.path.join(os.path.dirname(crate), "kani_out.json")
     if os.path.exists(out_json):
         os.remove(out_json)
-    cmd = ["cargo", "kani", "-Z", "unstable-options", "-Z", "function-contracts", "-Z", "stubbing",
+    cmd = ["cargo", "kani", "-Z", "unstable-options", "-Z", "function-contracts", "-Z", "stubbing", "-Z", "mem-predicates",
            "--export-json", out_json, "--output-format", "terse", "-j", str(jobs),
            "--harness-timeout", "%ds" % timeout_s, "--default-unwind", "3", "--exact"]
     for h in harnesses:
@@ -357,7 +360,7 @@ def run_kani(crate, harnesses, timeout_s, jobs, extra=None, logpath=None):
 def kani_concrete_playback(crate, harness, timeout_s):
     """Re-run one failing harness asking for a concrete playback test.
     Returns the generated test text or None."""
-    cmd = ["cargo", "kani", "-Z", "unstable-options", "-Z", "function-contracts", "-Z", "stubbing",
+    cmd = ["cargo", "kani", "-Z", "unstable-options", "-Z", "function-contracts", "-Z", "stubbing", "-Z", "mem-predicates",
            "-Z", "concrete-playback", "--concrete-playback=print", "--harness-timeout", "%ds" % timeout_s,
            "--default-unwind", "3", "--exact", "--harness", harness]
     try:
